@@ -192,6 +192,10 @@ def run(ctx):
         return None
 
     # ---------------------------------------------------------------- R14.a
+    try:
+        transformation = repo.find_class("Transformation")
+    except AnalysisError:
+        transformation = None
     n_sites = 0
     n_funcs = 0
     param_mutators: dict[str, set[int]] = {}
@@ -220,7 +224,7 @@ def run(ctx):
                 hit = [c for c in cls if repo.is_subclass(c, inst.qualname) or repo.is_subclass(c, op.qualname)]
                 if hit and not (isinstance(tgt.value, ast.Name) and ctx.res._is_self(fi, tgt.value) and fi.cls is not None and fi.cls.qualname in (inst.qualname, op.qualname) and fi.name in ("__init__",)):
                     kind = "instance" if repo.is_subclass(hit[0], inst.qualname) else "operation"
-                    if fi.module.name.endswith("_transformations"):
+                    if transformation is not None and fi.cls is not None and repo.is_subclass(fi.cls.qualname, transformation.qualname):
                         chk.notes.append(f"observation: {fi.loc(ev.node)} {fi.qualname} stores `{ast.unparse(tgt)}` on an {kind} (transformations are outside C14's list of actors)")
                         continue
                     if isinstance(tgt.value, ast.Name) and ctx.res._is_self(fi, tgt.value) and tgt.attr in ("__dict__",):
